@@ -38,6 +38,7 @@ fn long_arith(m: &MDesc, len: u64, total: usize, seed: u64, grid_only: bool, r: 
 	let (_, first) = chunk_for(m, 0, seed, n, grid_only);
 	let init = first[0].clone();
 	let Some(mut rf) = make_ref(m.name, &par, &init) else { return };
+	r.case_named(m.name, &[7, reg::json_hash(&par.show()), total as u64, seed, grid_only as u64]);
 	let Ok(Ok(mut inst)) = guard(|| (m.ctor)(&par, &init)) else { return };
 	let exact_grid = grid_only && GRID_EXACT.contains(&m.name);
 	let mut t: u64 = 0;
@@ -136,6 +137,7 @@ fn long_select(n: usize, total: usize, seed: u64, r: &mut Report) {
 	let names = ["Highest", "Lowest", "HighestLowestDelta", "HighestIndex", "LowestIndex", "SMM", "Past"];
 	let ms: Vec<MDesc> = names.iter().map(|x| reg::method(x)).collect();
 	let par = Par::L(n as P);
+	r.case(&[71, n as u64, total as u64, seed]);
 	let first = gen::values(SCHEDULE[0], seed, CHUNK, n);
 	let init = In::V(first[0] as V);
 	let mut insts = Vec::new();
@@ -207,6 +209,7 @@ fn long_select(n: usize, total: usize, seed: u64, r: &mut Report) {
 fn long_detectors(left: usize, right: usize, total: usize, seed: u64, r: &mut Report) {
 	use yata::core::{Action, Method};
 	use yata::methods::{Cross, LowerReversalSignal, ReversalSignal, UpperReversalSignal};
+	r.case(&[72, left as u64, right as u64, total as u64, seed]);
 	let first = gen::values(2, seed, 64, 8);
 	let init = first[0] as V;
 	let made = guard(|| Some((UpperReversalSignal::new(left as P, right as P, &init).ok()?, LowerReversalSignal::new(left as P, right as P, &init).ok()?, ReversalSignal::new(left as P, right as P, &init).ok()?)));
